@@ -9,10 +9,15 @@
    size functions through size_at — it is proved in exact REAL arithmetic (the NumR instance of Base/NumR.v over the
    standard library's Reals: C13_size_exp_exact_R, C13_size_between_exp_R, C13_size_at_between_R, ... from
    Proofs/SizeBetweenR.v; these depend on the standard library's real-number and classical axioms, listed by
-   Print Assumptions below); the rounding of binary64 is evaluated on the implementation's answers by the check. *)
+   Print Assumptions below).
+   Deme.size_at ends with  return min(max(N, lo), hi),  lo / hi = min / max of the epoch's two sizes (clamp_size; the
+   repair of finding F24).  Hence between-ness holds for EVERY number instance, binary64 included, with no arithmetic
+   hypothesis (C13_size_in_epoch_between, C13_size_at_between, from Proofs/SizeBetweenAny.v; binary64 instantiation
+   and the old counterexample in the tail, from Proofs/SizeBetweenFixedF.v); in exact rational / real arithmetic the
+   clamp is the identity (the ideal value lies between the sizes), so the exact-value theorems keep their conclusions. *)
 From Coq Require Import Bool List String QArith.
 From Demes Require Import Base.Num Base.NumQ Base.Py Model.MDM Model.SizeAt Spec.Valid
-  Proofs.SizeAtProofs Proofs.SizeBetweenQ.
+  Proofs.SizeAtProofs Proofs.SizeBetweenQ Proofs.SizeBetweenAny.
 Import ListNotations.
 Local Open Scope string_scope.
 Local Open Scope list_scope.
@@ -68,7 +73,7 @@ Section C13.
        q <- pdiv (e_esize e) (e_ssize e) ;;
        r <- plog q ;;
        x <- pexp (nmul r dt) ;;
-       Ok (nmul (e_ssize e) x)).
+       Ok (clamp_size e (nmul (e_ssize e) x))).
   Proof. exact (size_formula_exp e t). Qed.
 
   Theorem C13_formula_linear e t :
@@ -76,7 +81,7 @@ Section C13.
     neqb (e_ssize e) (e_esize e) = false ->
     size_in_epoch e t =
       (dt <- pdiv (nsub (e_start e) t) (nsub (e_start e) (e_end e)) ;;
-       Ok (nadd (e_ssize e) (nmul (nsub (e_esize e) (e_ssize e)) dt))).
+       Ok (clamp_size e (nadd (e_ssize e) (nmul (nsub (e_esize e) (e_ssize e)) dt)))).
   Proof. exact (size_formula_lin e t). Qed.
 
   Theorem C13_formula_equal_sizes e t :
@@ -91,6 +96,39 @@ Section C13.
     size_in_epoch e t = Ok v ->
     neqb v (e_esize e) = true /\ neqb (e_ssize e) v = true.
   Proof. exact (size_between_equal e t v). Qed.
+
+  (* the final clamp min(max(N, lo), hi): the end size, and every value between the two sizes, pass unchanged *)
+  Theorem C13_clamp_end_size e : clamp_size e (e_esize e) = e_esize e.
+  Proof. exact (clamp_esize e). Qed.
+
+  Theorem C13_clamp_identity_inside e x :
+    nle (pymin (e_ssize e) (e_esize e)) x = true -> nle x (pymax (e_ssize e) (e_esize e)) = true ->
+    clamp_size e x = x.
+  Proof. exact (clamp_id e x). Qed.
+
+  (* between-ness for every number instance (binary64 included), with no arithmetic hypothesis: whatever the
+     interpolation computed, a non-NaN answer ([ok v]) lies between min and max of the epoch's two sizes *)
+  Theorem C13_size_in_epoch_between e t v :
+    ValidEpoch e -> size_in_epoch e t = Ok v -> ok v ->
+    nle (pymin (e_ssize e) (e_esize e)) v = true /\ nle v (pymax (e_ssize e) (e_esize e)) = true.
+  Proof. exact (size_in_epoch_between e t v). Qed.
+
+  Theorem C13_size_in_epoch_between_sizes e t v :
+    ValidEpoch e -> size_in_epoch e t = Ok v -> ok v ->
+    (nle (e_ssize e) v && nle v (e_esize e) = true) \/
+    (nle (e_esize e) v && nle v (e_ssize e) = true).
+  Proof. exact (size_in_epoch_between_sizes e t v). Qed.
+
+  Theorem C13_size_at_between d t v :
+    (forall e, In e (d_epochs d) -> ValidEpoch e) ->
+    size_at d t = Ok v -> ok v ->
+    v = n0
+    \/ (exists e es', d_epochs d = e :: es' /\ v = e_ssize e /\
+          nisinf t = true /\ nisinf (d_start d) = true)
+    \/ (exists e, In e (d_epochs d) /\ epoch_owns t e = true /\
+          nle (pymin (e_ssize e) (e_esize e)) v = true /\
+          nle v (pymax (e_ssize e) (e_esize e)) = true).
+  Proof. exact (size_at_between d t v). Qed.
 End C13.
 
 Theorem C13_linear_exact_Q (e : @epoch NumQ) (t : qx) :
@@ -221,6 +259,11 @@ Print Assumptions C13_formula_exponential.
 Print Assumptions C13_formula_linear.
 Print Assumptions C13_formula_equal_sizes.
 Print Assumptions C13_between_partial.
+Print Assumptions C13_clamp_end_size.
+Print Assumptions C13_clamp_identity_inside.
+Print Assumptions C13_size_in_epoch_between.
+Print Assumptions C13_size_in_epoch_between_sizes.
+Print Assumptions C13_size_at_between.
 Print Assumptions C13_linear_exact_Q.
 Print Assumptions C13_between_linear_Q.
 Print Assumptions C13_ideal_exp_between.
@@ -240,53 +283,58 @@ Print Assumptions C13_size_at_between_R.
 Print Assumptions C13_size_in_epoch_total_R.
 
 (* ---- BEGIN binary64 instances (generated by harness/mkinst.py) ---- *)
-(* Binary64 (the NumF instance: Coq's primitive floats): the between-ness clause is REFUTED in the last place.  A valid
-   linear epoch from 1000 to 0 queried at t = 1e-20 (or at 5e-324, the float next to the epoch end): t is not isclose to
-   the end (abs_tol = 0), the weight (s - t) / (s - e) rounds to 1, and ss + (es - ss) * 1 is two floats below es.
-   Everything is evaluated by vm_compute; the statements of C13_size_between_linear_R and C13_size_at_between_R with
-   NumF for NumR are shown false.  This is the recorded finding F24; the check allows a relative 1e-9 and reports
-   anything inside it as that finding.  Print Assumptions lists only primitive-float operations. *)
+(* Binary64 (the NumF instance: Coq's primitive floats).  The between-ness clause was REFUTED in the last place for the
+   OLD code of Deme.size_at (finding F24): a valid linear epoch from 1000 to 0 queried at t = 1e-20 (or at 5e-324, the
+   float next to the epoch end): t is not isclose to the end (abs_tol = 0), the weight (s - t) / (s - e) rounds to 1,
+   and the interpolation ss + (es - ss) * 1 is two floats below es.  It was repaired in the library by clamping the
+   result into [min(ss, es), max(ss, es)]  (return min(max(N, lo), hi)),  and the clause is now PROVED for every number
+   instance including binary64 (C13_size_in_epoch_between / C13_size_at_between above; C13_size_at_between_F is the
+   NumF instance).  C13_old_formula_outside_F shows (vm_compute) that the rounding is real: the unclamped formula value
+   at the old witness is still two floats below es; C13_size_at_witness_fixed_F that size_at now returns exactly es
+   there.  Print Assumptions of the first two lists only primitive-float operations; that of C13_size_at_between_F
+   is that of the instance NumFLaws. *)
 From Coq Require Import Floats.
-From Demes Require Import Base.NumF Proofs.SizeBetweenRefutedF.
+From Demes Require Import Base.NumF Proofs.SizeBetweenFixedF.
 
-Theorem C13_size_between_linear_refuted_F :
-  exists (d : @deme NumF) (e : @epoch NumF) (t v : @Demes.Base.Num.num NumF),
+Theorem C13_old_formula_outside_F :
+  old_formula w_epoch w_t = Ok w_v /\
+  old_formula w_epoch 0x1p-1074%float = Ok w_v /\
+  next_down (next_down (e_esize w_epoch)) = w_v /\
+  @nlt NumF w_v (e_esize w_epoch) = true /\ @nlt NumF w_v (e_ssize w_epoch) = true /\
+  (@nle NumF (e_ssize w_epoch) w_v && @nle NumF w_v (e_esize w_epoch) = false) /\
+  (@nle NumF (e_esize w_epoch) w_v && @nle NumF w_v (e_ssize w_epoch) = false).
+Proof. exact old_formula_outside. Qed.
+
+Theorem C13_size_at_witness_fixed_F :
+  exists (d : @deme NumF) (e : @epoch NumF) (t t2 : @Demes.Base.Num.num NumF),
     In e (d_epochs d) /\ @ValidEpoch NumF e /\ e_sf e = "linear" /\
     @epoch_owns NumF t e = true /\ @isclose0 NumF t (e_end e) = false /\
-    @size_at NumF d t = Ok v /\
-    @nlt NumF v (e_esize e) = true /\ @nlt NumF v (e_ssize e) = true.
-Proof. exact size_between_linear_refuted_F. Qed.
+    t2 = next_up (e_end e) /\
+    @epoch_owns NumF t2 e = true /\ @isclose0 NumF t2 (e_end e) = false /\
+    old_formula e t = Ok w_v /\ old_formula e t2 = Ok w_v /\
+    @nlt NumF w_v (e_esize e) = true /\ @nlt NumF w_v (e_ssize e) = true /\
+    @size_at NumF d t = Ok (e_esize e) /\ @size_at NumF d t2 = Ok (e_esize e).
+Proof. exact size_at_witness_fixed_F. Qed.
 
-Theorem C13_size_between_linear_refuted_next_F :
-  exists (d : @deme NumF) (e : @epoch NumF) (t v : @Demes.Base.Num.num NumF),
-    In e (d_epochs d) /\ @ValidEpoch NumF e /\ e_sf e = "linear" /\
-    t = next_up (e_end e) /\
-    @epoch_owns NumF t e = true /\ @isclose0 NumF t (e_end e) = false /\
-    @size_at NumF d t = Ok v /\
-    @nlt NumF v (e_esize e) = true /\ @nlt NumF v (e_ssize e) = true.
-Proof. exact size_between_linear_refuted_next_F. Qed.
+Theorem C13_size_in_epoch_between_F (e : @epoch NumF) (t v : @Demes.Base.Num.num NumF) :
+  @ValidEpoch NumF e -> @size_in_epoch NumF e t = Ok v -> @ok NumF v ->
+  @nle NumF (@pymin NumF (e_ssize e) (e_esize e)) v = true /\
+  @nle NumF v (@pymax NumF (e_ssize e) (e_esize e)) = true.
+Proof. exact (size_in_epoch_between_F e t v). Qed.
 
-Theorem C13_size_between_linear_statement_false_F :
-  ~ (forall (e : @epoch NumF) (t v : @Demes.Base.Num.num NumF),
-       @ValidEpoch NumF e -> e_sf e = "linear" -> @epoch_owns NumF t e = true ->
-       @size_in_epoch NumF e t = Ok v ->
-       (@nle NumF (e_ssize e) v && @nle NumF v (e_esize e) = true) \/
-       (@nle NumF (e_esize e) v && @nle NumF v (e_ssize e) = true)).
-Proof. exact size_between_linear_statement_false_F. Qed.
+Theorem C13_size_at_between_F (d : @deme NumF) (t v : @Demes.Base.Num.num NumF) :
+  (forall e, In e (d_epochs d) -> @ValidEpoch NumF e) ->
+  @size_at NumF d t = Ok v -> @ok NumF v ->
+  v = @n0 NumF
+  \/ (exists e es', d_epochs d = e :: es' /\ v = e_ssize e /\
+        @nisinf NumF t = true /\ @nisinf NumF (d_start d) = true)
+  \/ (exists e, In e (d_epochs d) /\ @epoch_owns NumF t e = true /\
+        @nle NumF (@pymin NumF (e_ssize e) (e_esize e)) v = true /\
+        @nle NumF v (@pymax NumF (e_ssize e) (e_esize e)) = true).
+Proof. exact (size_at_between_F d t v). Qed.
 
-Theorem C13_size_at_between_statement_false_F :
-  ~ (forall (d : @deme NumF) (t v : @Demes.Base.Num.num NumF),
-       (forall e, In e (d_epochs d) -> @ValidEpoch NumF e) ->
-       @size_at NumF d t = Ok v ->
-       v = @n0 NumF
-       \/ (exists e es', d_epochs d = e :: es' /\ v = e_ssize e /\ @nisinf NumF t = true)
-       \/ (exists e, In e (d_epochs d) /\ @epoch_owns NumF t e = true /\
-             ((@nle NumF (e_ssize e) v && @nle NumF v (e_esize e) = true) \/
-              (@nle NumF (e_esize e) v && @nle NumF v (e_ssize e) = true)))).
-Proof. exact size_at_between_statement_false_F. Qed.
-
-Print Assumptions C13_size_between_linear_refuted_F.
-Print Assumptions C13_size_between_linear_refuted_next_F.
-Print Assumptions C13_size_between_linear_statement_false_F.
-Print Assumptions C13_size_at_between_statement_false_F.
+Print Assumptions C13_old_formula_outside_F.
+Print Assumptions C13_size_at_witness_fixed_F.
+Print Assumptions C13_size_in_epoch_between_F.
+Print Assumptions C13_size_at_between_F.
 (* ---- END binary64 instances ---- *)
